@@ -92,7 +92,7 @@ def check(case):
                 m = be.build(ode, bk, ["generalized_rush_larsen"], **kw)
             except be.Stage as e:
                 res["evals"] += 1
-                k = f"generation-raises:{cm.exc_site(e.exc)}" if e.stage == "codegen" else f"{e.stage}-raises:{cm.exc_name(e.exc) if e.stage != 'compile' else cm.msg_key(e.exc)}"
+                k = f"generation-raises:{cm.exc_site(e.exc)}" if e.stage == "codegen" else f"{e.stage}-raises:{cm.exc_name(e.exc) if e.stage != 'compile' else cm.compile_key(e.exc, set(ref.states) | set(ref.params) | set(ref.assigns))}"
                 add(k, f"{bk} generalized_rush_larsen cannot be generated ({e.stage}) although the plain module can", {"ode": text, "deltas": [delta], "points": []}, "scheme function", cm.exc_name(e.exc), str(e),
                     base=k)
                 break
